@@ -65,7 +65,11 @@ macro_rules! impl_leb128_utils_for_allocator {
     };
 
     paste::paste! {
-      dbutils::leb128::[< decode_ $ty _varint >](buf).map_err(Into::into)
+      dbutils::leb128::[< decode_ $ty _varint >](buf).map_err(|e| match e {
+        // the value does not end within the allocated memory.
+        DecodeVarintError::Underflow => Error::OutOfBounds { $offset, allocated },
+        e => e.into(),
+      })
     }
   }};
 }
